@@ -62,6 +62,18 @@ CLAIMED = {
             'trusted: TLC, harness/dict_driver.py (id <-> key/value mapping, read-back through items()); 4 keys per key set, 3 '
             'locations; HDF5/sqlalchemy backends and numpy memory-mapping absent',
             'TLA+ layer P/I refinement by TLC + trace validation of replayed TLC behaviours'),
+    'C04': ('persist', 'model_checking',
+            'C04.*: every handle of every live process reads exactly what has been written (values as stored - a snapshot - and keys '
+            'of their original type), also after the writer exited; a handle rebuilt from the reported state, from copy() or by '
+            'unpickling (same or other process) reports the same settings and sees the same store; a cached function re-created on the '
+            'location is served from it (load/hit, no evaluation). PersistImpl models handles without local contents over one store, '
+            'process exit and the import system\'s byte-code cache behind the serialized=False readers; TLC checks it refines PersistP '
+            'and generates behaviours that are replayed on two real worker processes per scenario for every persistent configuration, '
+            'byte-code writing on and off, file times driven by the spec clock; TLC judges every step (PersistTrace). The single-process '
+            'clauses are judged on the dict engine\'s behaviours (DictTrace) in the same run.', '4 (C04)',
+            'trusted: TLC, harness/persist_worker.py and persist_checks.py; sequential operations only (concurrency is C14), normal '
+            'process exit (crashes are C13); HDF5/sqlalchemy backends absent',
+            'TLA+ layer P/I refinement by TLC + trace validation of TLC behaviours replayed on real worker processes'),
     'C12': ('round', 'model_checking',
             'C12.*: calls whose arguments round to identical trees share a key (and the second is a hit), calls that round to '
             'unequal trees never do, the function receives the caller\'s original arguments, tol=None is the identity, rounding '
